@@ -3,7 +3,7 @@ from __future__ import annotations
 
 import ast
 
-from sa.loader import recv, norm, norm1, walk_shallow, own_nodes, call_name, is_super_call
+from sa.loader import recv, norm, norm1, walk_shallow, own_nodes, call_name, is_super_call, AnalysisError
 from sa.absval import Interp
 from sa.dataflow import node_defs
 from sa.rulekit import (nodes_where, node_calls, node_roots, nodes_calling, return_nodes, own,
@@ -218,15 +218,37 @@ def run(ck):
         return any(gi.has_guard(r, text, pol) for r in rs)
     ck.ob(R4, f"{ini.fid} :: EventCond refused", raised_under('isinstance(etype, block.EventCond)'),
           "a conditional event cannot be repeated", ini, ini.node)
-    okint = raised_under('self._interval is None or self._interval <= 0.0') or \
-        (raised_under('self._interval is None') and raised_under('self._interval <= 0.0'))
-    ck.ob(R4, f"{ini.fid} :: positive interval", okint,
-          "interval None / <= 0 raises" if okint else "a non-positive interval is accepted", ini, ini.node)
-    okc = raised_under('count is not None and count < 0') or raised_under('count < 0')
-    zero_ok = not raised_under('count <= 0') and not raised_under('count is not None and count <= 0')
-    ck.ob(R4, f"{ini.fid} :: count", okc and zero_ok,
-          "a negative count raises; count=0 (no repetition) is accepted" if okc and zero_ok else
-          "negative counts are accepted, or count=0 is refused", ini, ini.node)
+    # the two argument checks, decided by evaluating "is a raise reached?" on a value grid
+    from sa.minieval import MiniEval
+
+    def raises_for(env_):
+        """Does __init__ reach one of its raise statements for these argument values?  Only the
+        `if <test>: raise` statements whose test can be evaluated from env_ take part."""
+        hit = False
+        for st_ in ini.node.body:
+            if isinstance(st_, ast.If) and st_.body and isinstance(st_.body[-1], ast.Raise) and not st_.orelse:
+                try:
+                    v_ = MiniEval(R4, env_).ev(st_.test)
+                except AnalysisError:
+                    continue
+                except Exception:       # a fault of the evaluated test (e.g. None <= 0)
+                    v_ = 'fault'
+                hit = hit or bool(v_)
+        return hit
+    badi = [v_ for v_ in (None, -1, 0, 0.0, 0.5, 5) if
+            raises_for({'self._interval': v_}) != (v_ is None or v_ <= 0)]
+    ck.abstract_cases += 6
+    ck.ob(R4, f"{ini.fid} :: positive interval", not badi,
+          "interval None / <= 0 raises, a positive interval is accepted (6 values)" if not badi else
+          f"for interval = {badi} the constructor {'does not raise' if (badi[0] is None or badi[0] <= 0) else 'raises'}"
+          f" (documented: the interval must be positive)", ini, ini.node)
+    badc = [v_ for v_ in (None, -2, -1, 0, 1, 3) if
+            raises_for({'count': v_}) != (v_ is not None and v_ < 0)]
+    ck.abstract_cases += 6
+    ck.ob(R4, f"{ini.fid} :: count", not badc,
+          "a negative count raises; None and count=0 (no repetition) are accepted (6 values)" if not badc else
+          f"for count = {badc} the constructor decides wrongly (negative counts must raise, None / 0 / "
+          f"positive counts must be accepted)", ini, ini.node)
     re_w = nodes_writing_attr(gi, '_repeated_event')
     ok = len(re_w) == 1 and norm(written_value(re_w[0], '_repeated_event')) == 'block.Event(dest, etype)'
     cw = nodes_writing_attr(gi, '_count')
